@@ -1170,6 +1170,33 @@ func a4(w *World, r *Report) {
 		}
 		r.Check(badR == "" && nR >= 3, "A-4", "ExecuteTrx:routed-is-executed", "a transaction the executor routes to the EVM (contract type, or receiver with a code marker) is never handed back before the snapshot: the EVM's 'not mine' test is the complement of the executor's routing test", "the EVM controller declines a transaction the executor routes to it: it is executed and charged by nobody (or settled natively without fee and nonce) while DeliverTx reports success: "+badR, fnSite(w, fn))
 	}
+	// ... and the converse at the executor: the one answer of the EVM controller that
+	// runTrx tolerates is the "not mine" sentinel itself. Under "the handler's error is
+	// not nil and is not that object" runTrx has no successful path — a tolerance test
+	// that is anything but identity with the sentinel (errors.Is over an Is method that
+	// compares codes, a code or message comparison) lets a reverted or failed execution
+	// through to postRunTrx, which leaves fee and nonce to the EVM: code 0, nothing
+	// charged, the nonce not raised, the same signed transaction valid again.
+	if rt := w.Func("node", "runTrx"); rt != nil {
+		evmErr := `^p0\.TrxEVMHandler\.ExecuteTrx\(p0\)$`
+		badT, nT := "", 0
+		for _, a := range []txAbs{{6, false, true}, {6, true, true}, {1, true, true}} {
+			base := w.evalTxCond(a)
+			sane := w.runUnder(rt, base, nil)
+			if sane.ok == 0 {
+				continue
+			}
+			nT++
+			if ok, why := w.failsUnder(rt, base, AR(evmErr, "!=", `^nil$`), AR(evmErr, "!=", `^xerrors\.ErrUnknownTrxType$`)); !ok {
+				badT = fmt.Sprintf("for (type=%d, receiverHasCode=%v): %s", a.typ, a.hasCode, why)
+			}
+		}
+		if nT == 0 {
+			r.Undecided("A-4", "runTrx:evm-error-tolerated-only-for-sentinel", "runTrx has no successful path for an EVM-routed transaction", fnSite(w, rt))
+		} else {
+			r.Check(badT == "", "A-4", "runTrx:evm-error-tolerated-only-for-sentinel", "an error of the EVM controller other than the 'not mine' sentinel object itself ends runTrx with that failure (the tolerance test is identity with the sentinel)", "runTrx goes on to postRunTrx with an error of the EVM controller that is not the 'not mine' sentinel: a failed execution is reported as success without fee and nonce: "+badT, fnSite(w, rt))
+		}
+	}
 	// the post-Finish error exit (marking the created contract account) is dead
 	okDead := true
 	for _, c := range CallsIn(fn) {
